@@ -233,6 +233,15 @@ impl<'a, C: SimCfg> Runner<'a, C> {
                 (st.events[self.cursor..].to_vec(), st.invs.clone())
             };
             for ev in &evs {
+                if std::env::var("VERIF_TRACE").is_ok() {
+                    match ev {
+                        crate::queries::Ev::Enter(i) => eprintln!("  enter node {}", invs[*i].node),
+                        crate::queries::Ev::Exit(i) => eprintln!("  exit  node {} = {:?}", invs[*i].node, invs[*i].result),
+                        crate::queries::Ev::Abort(i) => eprintln!("  abort node {}", invs[*i].node),
+                        crate::queries::Ev::Read(i, d, v) => eprintln!("  node {} read {} = {:?}", invs[*i].node, d, v),
+                        crate::queries::Ev::Hook(s, a, b) => eprintln!("  hook {s} {a} {b}"),
+                    }
+                }
                 self.cursor += 1;
                 self.model.on_event(ev, &invs)?;
             }
@@ -416,6 +425,7 @@ impl<'a, C: SimCfg> Runner<'a, C> {
             self.resolve_uncertain_inputs().await?;
         }
         self.input_history.push(self.model.inputs.clone());
+        self.model.classify_epoch();
         self.drain()?;
         if self.sc.cfg.strict {
             self.warm_up().await?;
@@ -637,6 +647,11 @@ impl<'a, C: SimCfg> Runner<'a, C> {
         if self.model.epoch > 0 {
             self.ensure_tracked(true).await;
             for n in (0..self.sc.program.len()).rev() {
+                if self.sc.program.kind(n) == crate::program::Kind::In
+                    && !self.model.inputs.contains_key(&n)
+                {
+                    continue;
+                }
                 self.user_query(n, "final sweep").await?;
             }
         }
@@ -662,6 +677,7 @@ fn run_generic<C: SimCfg>(sc: &Scenario, decisions: Option<&[Decision]>) -> Outc
     crate::queries::set_event_sink(Some(h.clone()));
     let mut model = Model::new(&sc.program);
     model.check_c03 = sc.cfg.check_c03;
+    model.cyclic = sc.cfg.cyclic;
     let mut runner = Runner::<C> {
         sc,
         h: h.clone(),
@@ -713,6 +729,11 @@ fn run_generic<C: SimCfg>(sc: &Scenario, decisions: Option<&[Decision]>) -> Outc
     {
         failure = Some(fail("pipeline_gap", g.clone()));
     }
+    // the cycle payload of the engine is a non-string panic
+    let panics: Vec<_> = panics
+        .into_iter()
+        .filter(|p| !(sc.cfg.cyclic && !p.string_payload))
+        .collect();
     if failure.is_none() && !panics.is_empty() {
         let p = &panics[0];
         failure = Some(fail(
@@ -747,6 +768,8 @@ fn run_generic<C: SimCfg>(sc: &Scenario, decisions: Option<&[Decision]>) -> Outc
         runner.fault_fired
     } else if has(&|o| matches!(o, Op::Concurrent { .. })) {
         base && (probe("cl_wait_existing") + probe("scc_wait") > 0)
+    } else if sc.cfg.cyclic {
+        m.cyclic_epochs > m.ambiguous_epochs
     } else if sc.cfg.crash_check {
         base && stats.phys_commits >= 2
     } else if has(&|o| matches!(o, Op::Restart)) {
